@@ -394,15 +394,38 @@ class Units:
         return UNKNOWN
 
 
-def r_units(cx, tags):
-    rule = "R-UNITS"
+def payload_fns(fx):
+    """Functions that build a *string* payload from source text: they construct `Payload::StringLiteral`, append to
+    the string-literal buffer, or call the hex decoder."""
+    out = set()
+    for fname, b in fx.bodies.items():
+        if fx.is_derive(fname) or b["kind"] not in ("Fn", "AssocFn"):
+            continue
+        for node, _ in F.walk(b["hir"]):
+            d = node.get("def") or (node.get("res") or {}).get("def") or ""
+            if not d:
+                continue
+            dn = F.norm(d)
+            if dn.endswith("Payload::StringLiteral") or "add_string_literal" in dn or "hex::" in dn:
+                out.add(fname)
+                break
+    return out
+
+
+def r_units(cx, tags, only_fns=None, rule_name="R-UNITS"):
+    """`only_fns(fx) -> set of function names`: restrict the rule to those functions (the instances that are a
+    necessary condition of the property the rule is attached to; reported under `rule_name`)."""
+    rule = rule_name
     cx.rules_run.append(rule)
     sites = 0
     seen = set()
     for tag in tags:
         fx = cx.facts(tag)
+        keep = only_fns(fx) if only_fns else None
         for fname, b in fx.bodies.items():
             if fx.is_derive(fname) or b["kind"] not in ("Fn", "AssocFn"):
+                continue
+            if keep is not None and fname not in keep:
                 continue
             U = None
             for node, par in F.walk(b["hir"]):
